@@ -537,7 +537,11 @@ struct BindMachine : Machine {
   // area ops work on a live buffer, or on the machine's own mapping when there is none
   void pick_area(const Op &o, void **addr, size_t *len) {
     char *base; size_t blen;
-    if (bufs.empty()) { base = (char *)ensure_static(); blen = STATIC_LEN; } else { Buf &b = bufs[o.u("buf") % bufs.size()]; base = (char *)b.p; blen = b.len; }
+    if (bufs.empty()) { base = (char *)ensure_static(); blen = STATIC_LEN; } else { Buf &b = bufs[o.u("buf") % bufs.size()]; base = (char *)b.p; blen = b.len;
+      // the number of pages an area spans (= kernel calls of the per-page entry points, which are logged) must not depend on where the allocator
+      // happened to place the buffer: areas start at the first page boundary inside it, or in the machine's own mapping when it holds none
+      char *ab = (char *)(((uintptr_t)base + 4095) & ~(uintptr_t)4095);
+      if (blen >= 2 * 4096 - 1) { blen -= 4095; base = ab; } else { base = (char *)ensure_static(); blen = STATIC_LEN; } }   // blen - 4095 bytes fit behind the boundary wherever the buffer starts
     size_t off = o.u("off") % blen, l = o.u("len"); if (l > blen - off) l = blen - off;
     *addr = base + off; *len = l;
   }
